@@ -195,4 +195,18 @@ theorem parseIndexFile_total (data : Bytes) : ∃ r, parseIndexFile data = .ok r
     rw [hm]; simp only [ok_bind]
     rw [hps]; exact ⟨_, rfl⟩
 
+/-- page isolation: the record of page `i` is computed from the 8192 bytes of page `i` alone -/
+theorem parsePages_step (a pg b : Bytes) (t n i : Nat) (ha : a.length = i * 8192) (hp : pg.length = 8192) :
+    parsePages (a ++ pg ++ b) t (n + 1) i =
+      (do let r ← parseIndexPage pg (i % 2 ^ 32) t
+          let rest ← parsePages (a ++ pg ++ b) t n (i + 1)
+          pure (r :: rest)) := by
+  have hs : slice (a ++ pg ++ b) (i * 8192) (i * 8192 + 8192) = .ok pg := by
+    rw [slice_ok _ _ _ (by simp [ha, hp]) (Nat.le_add_right _ _)]
+    congr 1
+    rw [← ha, ← hp, List.append_assoc, List.take_length_add_append, List.drop_left', List.take_left']
+    · rfl
+    · rfl
+  rw [parsePages, hs]; rfl
+
 end PgVerif.Proofs.Index
